@@ -217,6 +217,7 @@ class PortsConc(BaseEngine):
         return {'prop': prop, 'kind': kind, 'n_sub': n_sub,
                 'sub_kinds': [pick(rng, ('echo', 'locked_old', 'locked_new')) for _ in range(n_sub)],
                 'senders': senders, 'receivers': receivers, 'mutate_after_send': rng.random() < 0.7,
+                'receivers_mutate': rng.random() < 0.4,
                 'chunks': [rng.randint(1, 4) for _ in range(8)], 'pq_whole': rng.random() < 0.5, 'pq_batch': [pick(rng, (1, 1, 2, 3, 4)) for _ in range(3)],
                 'sleep_time': pick(rng, (1e-4, 1e-3, 1e-2, 0.5)), 'start_time': pick(rng, (0.0, 100.0, 1.7e9)),
                 'sched': sched, 'sched_seed': derive(prop, seed, idx, 'sched'), 'decisions': [], 'total': total}
@@ -490,9 +491,21 @@ class PortsConc(BaseEngine):
             progress['idle'] = 0
             record(th, op, inv, res if res is None else (repr(res)))
             if res is not None:
-                received.append((th, op, inv, sched.total_steps, res, tgt))
+                # freeze the value at hand-over; afterwards the receiver may edit its message
+                live = res[1] if isinstance(res, tuple) and len(res) == 2 else res
+                frozen = res
+                if isinstance(live, mido.Message):
+                    clone = mido.Message.__new__(mido.Message)
+                    vars(clone).update({k: (type(v)(v) if isinstance(v, tuple) else v) for k, v in vars(live).items()})
+                    clone_ids[id(clone)] = live
+                    frozen = (res[0], clone) if isinstance(res, tuple) else clone
+                    if plan.get('receivers_mutate') and kind not in ('pq', 'pq_raw'):
+                        mutate(live)
+                        stats['fault:receiver_mutates_message'] += 1
+                received.append((th, op, inv, sched.total_steps, frozen, tgt))
 
         received = []
+        clone_ids = {}
 
         def close_gen(it):
             # dropping a suspended generator runs its frame once more (GeneratorExit); that is
@@ -690,7 +703,7 @@ class PortsConc(BaseEngine):
                 self._check_raw(plan, hist, received, drained, fed_log, stats, cov)
         else:
             self._check_history(plan, kind, sent, received, drained, wires, subs, stats, cov, sched,
-                                incomplete=incomplete)
+                                incomplete=incomplete, clone_ids=clone_ids)
         for p in [port] + list(subs):
             try:
                 p.close()
@@ -755,7 +768,8 @@ class PortsConc(BaseEngine):
             stats['probe:two_consumers_got_messages'] += 1
 
     # ------------ history oracle
-    def _check_history(self, plan, kind, sent, received, drained, wires, subs, stats, cov, sched, incomplete=False):
+    def _check_history(self, plan, kind, sent, received, drained, wires, subs, stats, cov, sched, incomplete=False,
+                       clone_ids=None):
         n_sub = len(subs) if kind.startswith('multi') else 1
         by_id = {}
         for si, seq, orig, inv, obj in sent:
@@ -823,7 +837,7 @@ class PortsConc(BaseEngine):
             orig, sinv, obj = by_id[key]
             if m != orig:
                 raise Violation(f'corrupt-or-mutated@{kind}', f'{th}.{op} returned {m!r}, sent was {orig!r}')
-            if m is obj and kind != 'pq':
+            if (m is obj or (clone_ids or {}).get(id(m)) is obj) and kind != 'pq':
                 raise Violation(f'not-a-copy@{kind}', f'{th}.{op} returned the very object that was sent')
             if ret < sinv:
                 raise Violation(f'received-before-sent@{kind}', f'{m!r} received at {ret} but send invoked at {sinv}')
@@ -896,6 +910,8 @@ class PortsConc(BaseEngine):
             yield from shrink_list_at(plan, ('receivers', i), min_len=1)
         if plan['mutate_after_send']:
             yield replace_at(plan, ('mutate_after_send',), False)
+        if plan.get('receivers_mutate'):
+            yield replace_at(plan, ('receivers_mutate',), False)
         if plan['n_sub'] > 1:
             yield replace_at(plan, ('n_sub',), plan['n_sub'] - 1)
         for i, s in enumerate(plan['senders']):
